@@ -62,6 +62,9 @@ type teeReadCloser struct {
 	w io.WriteCloser
 	r io.ReadCloser
 	t io.Reader
+
+	// eof is true once the underlying reader has been read to completion.
+	eof bool
 }
 
 // TeeReadCloser constructs a teeReadCloser from the passed reader and writer.
@@ -75,11 +78,22 @@ func TeeReadCloser(r io.ReadCloser, w io.WriteCloser) io.ReadCloser {
 
 // Read calls the underlying TeeReader Read method.
 func (t *teeReadCloser) Read(b []byte) (int, error) {
-	return t.t.Read(b)
+	n, err := t.t.Read(b)
+	if err == io.EOF { //nolint:errorlint // io.Reader contract: EOF is returned unwrapped.
+		t.eof = true
+	}
+	return n, err
 }
 
 // Close closes the underlying ReadCloser, then the Writer for the TeeReader.
 func (t *teeReadCloser) Close() error {
+	// If we are closed before the reader was fully consumed the writer has only
+	// seen a prefix of the stream. Let it know, so that it does not mistake the
+	// prefix for the complete content.
+	if cw, ok := t.w.(interface{ CloseWithError(err error) error }); ok && !t.eof {
+		_ = t.r.Close()
+		return cw.CloseWithError(io.ErrUnexpectedEOF)
+	}
 	if err := t.r.Close(); err != nil {
 		_ = t.w.Close()
 		return err
